@@ -154,3 +154,177 @@ Proof.
   rewrite app_length. replace (N.of_nat (length b + length rest) <? N.of_nat (length b)) with false by lia.
   rewrite Nnat.Nat2N.id. rewrite take_app. reflexivity.
 Qed.
+
+(* ---------- the scanner reads a prefix: more bytes after a successful parse change nothing ---------- *)
+Lemma msgw_dec_varint_aux_ext : forall k s a bs v r ext,
+  dec_varint_aux k s a bs = Ok (v, r) ->
+  dec_varint_aux k s a (bs ++ ext) = Ok (v, r ++ ext) /\ (length r < length bs)%nat.
+Proof.
+  induction k as [|k IH]; intros s a bs v r ext H; [discriminate|].
+  destruct bs as [|b bs]; [discriminate|]. cbn [dec_varint_aux app length] in *.
+  destruct k as [|k'].
+  - destruct (b2n b <? 2); [|discriminate]. inversion H; subst. split; [reflexivity|lia].
+  - destruct (b2n b <? 128).
+    + inversion H; subst. split; [reflexivity|lia].
+    + destruct (IH _ _ _ _ _ ext H) as [E L]. split; [exact E|lia].
+Qed.
+
+Lemma msgw_dec_tag_ext bs ext n t r :
+  dec_tag bs = Ok (n, t, r) -> dec_tag (bs ++ ext) = Ok (n, t, r ++ ext) /\ (length r < length bs)%nat.
+Proof.
+  unfold dec_tag, dec_varint. intros H.
+  destruct (dec_varint_aux 10 0 0 bs) as [[x r0]|e] eqn:E; [|discriminate].
+  destruct (msgw_dec_varint_aux_ext _ _ _ _ _ _ ext E) as [E' L]. rewrite E'.
+  destruct (decode_tag x) as [[n' t']|]; [|discriminate].
+  destruct (n' <? 1); [discriminate|]. inversion H; subst. split; [reflexivity|exact L].
+Qed.
+
+Lemma msgw_take_ext n bs a r ext : take n bs = Some (a, r) -> take n (bs ++ ext) = Some (a, r ++ ext).
+Proof.
+  unfold take. destruct (Nat.leb n (length bs)) eqn:E; [|discriminate]. intros H. inversion H; subst.
+  apply Nat.leb_le in E. rewrite app_length.
+  replace (Nat.leb n (length bs + length ext)) with true by (symmetry; apply Nat.leb_le; lia).
+  rewrite firstn_app, skipn_app. replace (n - length bs)%nat with 0%nat by lia.
+  cbn [firstn skipn]. now rewrite app_nil_r.
+Qed.
+
+Lemma msgw_take_rest_len n bs a r : take n bs = Some (a, r) -> (length r <= length bs)%nat.
+Proof.
+  unfold take. destruct (Nat.leb n (length bs)); [|discriminate]. intros H. inversion H; subst.
+  rewrite skipn_length. lia.
+Qed.
+
+Lemma msgw_dec_bytes_ext bs ext v r :
+  dec_bytes bs = Ok (v, r) -> dec_bytes (bs ++ ext) = Ok (v, r ++ ext) /\ (length r <= length bs)%nat.
+Proof.
+  unfold dec_bytes, dec_varint. intros H.
+  destruct (dec_varint_aux 10 0 0 bs) as [[n r0]|e] eqn:E; [|discriminate].
+  destruct (msgw_dec_varint_aux_ext _ _ _ _ _ _ ext E) as [E' L]. rewrite E'.
+  destruct (N.of_nat (length r0) <? n) eqn:El; [discriminate|].
+  destruct (take (N.to_nat n) r0) as [[a b]|] eqn:Et; [|discriminate].
+  inversion H; subst. rewrite app_length.
+  replace (N.of_nat (length r0 + length ext) <? n) with false by lia.
+  rewrite (msgw_take_ext _ _ _ _ ext Et). split; [reflexivity|].
+  apply msgw_take_rest_len in Et. lia.
+Qed.
+
+Section LoopExt.
+  Variable pv : pv_t.
+  Variable num : N.
+  Variable ext : list byte.
+  Hypothesis pv_ext : forall n t bs v r, pv n t bs = Ok (v, r) ->
+    pv n t (bs ++ ext) = Ok (v, r ++ ext) /\ (length r <= length bs)%nat.
+
+  Lemma msgw_group_loop_ext : forall g bs acc g' v r,
+    group_loop pv num g bs acc = Ok (v, r) -> (length (bs ++ ext) < length g')%nat ->
+    group_loop pv num g' (bs ++ ext) acc = Ok (v, r ++ ext) /\ (length r <= length bs)%nat.
+  Proof.
+    induction g as [|x g IH]; intros bs acc g' v r H Hg'; [discriminate|].
+    destruct g' as [|x' g']; [cbn in Hg'; lia|]. cbn [group_loop] in *.
+    destruct (dec_tag bs) as [[[n2 t2] r0]|e] eqn:E; [|discriminate].
+    destruct (msgw_dec_tag_ext _ ext _ _ _ E) as [E' L]. rewrite E'.
+    destruct (t2 =? 4).
+    - destruct (n2 =? num); [|discriminate]. inversion H; subst. split; [reflexivity|lia].
+    - destruct (pv n2 t2 r0) as [[v' r']|e] eqn:Ep; [|discriminate].
+      destruct (pv_ext _ _ _ _ _ Ep) as [Ep' Lp]. rewrite Ep'.
+      destruct (IH r' ((n2, v') :: acc) g' v r H) as [E2 L2].
+      + rewrite app_length in *. cbn [length] in Hg'. lia.
+      + split; [exact E2|lia].
+  Qed.
+End LoopExt.
+
+Ltac msgw_destruct_typ typ :=
+  destruct typ as [|[[[?|?|]|[?|?|]|]|[[?|?|]|[?|?|]|]|]].
+
+Theorem msgw_parse_val_ext : forall dep num typ bs ext v r,
+  parse_val dep num typ bs = Ok (v, r) ->
+  parse_val dep num typ (bs ++ ext) = Ok (v, r ++ ext) /\ (length r <= length bs)%nat.
+Proof.
+  induction dep as [|d IH]; intros num typ bs ext v r H.
+  - msgw_destruct_typ typ; cbn [parse_val] in *; try discriminate.
+    + destruct (dec_varint bs) as [[x r0]|e] eqn:E; [|discriminate]. inversion H; subst.
+      unfold dec_varint in *. destruct (msgw_dec_varint_aux_ext _ _ _ _ _ _ ext E) as [E' L].
+      rewrite E'. split; [reflexivity|lia].
+    + destruct (take 4 bs) as [[a b]|] eqn:E; [|discriminate]. inversion H; subst.
+      rewrite (msgw_take_ext _ _ _ _ ext E). split; [reflexivity|eapply msgw_take_rest_len; exact E].
+    + destruct (dec_bytes bs) as [[a b]|e] eqn:E; [|discriminate]. inversion H; subst.
+      destruct (msgw_dec_bytes_ext _ ext _ _ E) as [E' L]. rewrite E'. split; [reflexivity|exact L].
+    + destruct (take 8 bs) as [[a b]|] eqn:E; [|discriminate]. inversion H; subst.
+      rewrite (msgw_take_ext _ _ _ _ ext E). split; [reflexivity|eapply msgw_take_rest_len; exact E].
+  - msgw_destruct_typ typ; cbn [parse_val] in *; try discriminate.
+    + destruct (dec_varint bs) as [[x r0]|e] eqn:E; [|discriminate]. inversion H; subst.
+      unfold dec_varint in *. destruct (msgw_dec_varint_aux_ext _ _ _ _ _ _ ext E) as [E' L].
+      rewrite E'. split; [reflexivity|lia].
+    + destruct (take 4 bs) as [[a b]|] eqn:E; [|discriminate]. inversion H; subst.
+      rewrite (msgw_take_ext _ _ _ _ ext E). split; [reflexivity|eapply msgw_take_rest_len; exact E].
+    + apply (msgw_group_loop_ext (parse_val d) num ext) with (g := x00 :: bs).
+      * intros n t bs0 v0 r0 H0. apply IH. exact H0.
+      * exact H.
+      * cbn [length]. lia.
+    + destruct (dec_bytes bs) as [[a b]|e] eqn:E; [|discriminate]. inversion H; subst.
+      destruct (msgw_dec_bytes_ext _ ext _ _ E) as [E' L]. rewrite E'. split; [reflexivity|exact L].
+    + destruct (take 8 bs) as [[a b]|] eqn:E; [|discriminate]. inversion H; subst.
+      rewrite (msgw_take_ext _ _ _ _ ext E). split; [reflexivity|eapply msgw_take_rest_len; exact E].
+Qed.
+
+(* ---------- ConsumeGroup on a body followed by a minimal end tag ---------- *)
+Lemma msgw_enc_fuel_last : forall k v,
+  (0 < k)%nat -> 0 < v -> v < 2^(7 * (N.of_nat k - 1) + 1) ->
+  exists i l, enc_varint_fuel k v = i ++ [l] /\ b2n l mod 128 <> 0.
+Proof.
+  induction k as [|k IH]; intros v Hk Hv Hcap; [lia|].
+  cbn [enc_varint_fuel]. destruct (v <? 128) eqn:Hlt.
+  - exists [], (n2b v). split; [reflexivity|]. rewrite b2n_n2b by lia. rewrite N.mod_small by lia. lia.
+  - destruct k as [|k'].
+    + replace (7 * (N.of_nat 1 - 1) + 1) with 1 in Hcap by lia. change (2^1) with 2 in Hcap. lia.
+    + assert (Hq : v / 128 < 2 ^ (7 * (N.of_nat (S k') - 1) + 1)).
+      { replace (7 * (N.of_nat (S (S k')) - 1) + 1) with (7 * (N.of_nat (S k') - 1) + 1 + 7) in Hcap by lia.
+        rewrite N.pow_add_r in Hcap. change (2^7) with 128 in Hcap.
+        apply N.div_lt_upper_bound; lia. }
+      destruct (IH (v / 128) ltac:(lia) ltac:(lia) Hq) as (i & l & E & Hl).
+      exists (n2b (v mod 128 + 128) :: i), l. rewrite E. split; [reflexivity|exact Hl].
+Qed.
+
+Lemma msgw_strip_zero7_last i l rest : b2n l mod 128 <> 0 -> strip_zero7 (rev (i ++ [l]) ++ rest) = rev (i ++ [l]) ++ rest.
+Proof.
+  intros H. rewrite rev_app_distr. cbn [rev app strip_zero7].
+  replace (b2n l mod 128 =? 0) with false by lia. reflexivity.
+Qed.
+
+Lemma msgw_consume_group_enc num body tail w :
+  1 <= num -> num <= 536870911 ->
+  parse_val default_dep num 3 (body ++ enc_tag num 4) = Ok (w, []) ->
+  consume_group num (body ++ enc_tag num 4 ++ tail) =
+    Ok (Some body, N.of_nat (length (body ++ enc_tag num 4))) /\
+  skipn (length (body ++ enc_tag num 4)) (body ++ enc_tag num 4 ++ tail) = tail.
+Proof.
+  intros Hlo Hhi Hp.
+  destruct (msgw_parse_val_ext _ _ _ _ tail _ _ Hp) as [Hp' _]. cbn [app] in Hp'.
+  rewrite <- app_assoc in Hp'.
+  assert (Hskip : skipn (length (body ++ enc_tag num 4)) (body ++ enc_tag num 4 ++ tail) = tail).
+  { rewrite app_assoc. rewrite skipn_app, Nat.sub_diag, skipn_all. reflexivity. }
+  split; [|exact Hskip].
+  unfold consume_group. rewrite Hp'.
+  assert (Hn : (length (body ++ enc_tag num 4 ++ tail) - length tail)%nat = length (body ++ enc_tag num 4)).
+  { rewrite !app_length. lia. }
+  rewrite Hn.
+  assert (Hfirst : firstn (length (body ++ enc_tag num 4)) (body ++ enc_tag num 4 ++ tail) = body ++ enc_tag num 4).
+  { rewrite app_assoc. rewrite firstn_app, Nat.sub_diag, firstn_all. cbn [firstn]. apply app_nil_r. }
+  rewrite Hfirst.
+  (* the end tag is minimal: nothing is stripped *)
+  assert (Hlast : exists i l, enc_tag num 4 = i ++ [l] /\ b2n l mod 128 <> 0).
+  { unfold enc_tag, enc_varint. apply msgw_enc_fuel_last; [lia|unfold encode_tag; lia|].
+    unfold encode_tag. change (4 mod 8) with 4. change (2 ^ (7 * (N.of_nat 10 - 1) + 1)) with 18446744073709551616. lia. }
+  destruct Hlast as (i & l & El & Hl).
+  assert (Hstrip : rev (strip_zero7 (rev (body ++ enc_tag num 4))) = body ++ enc_tag num 4).
+  { rewrite rev_app_distr, El. rewrite msgw_strip_zero7_last by exact Hl.
+    rewrite <- rev_app_distr. apply rev_involutive. }
+  rewrite Hstrip.
+  assert (Hk : N.to_nat (size_tag num) = length (enc_tag num 4)).
+  { rewrite <- (msgw_enc_tag_length num 4) by (change (2^61) with 2305843009213693952; lia). lia. }
+  rewrite Hk. rewrite app_length.
+  replace (Nat.ltb (length body + length (enc_tag num 4)) (length (enc_tag num 4))) with false
+    by (symmetry; apply Nat.ltb_ge; lia).
+  replace (length body + length (enc_tag num 4) - length (enc_tag num 4))%nat with (length body) by lia.
+  rewrite firstn_app, Nat.sub_diag, firstn_all. cbn [firstn]. rewrite app_nil_r. reflexivity.
+Qed.
